@@ -187,7 +187,8 @@ def r2_published(ctx, F, rule='C05-R2'):
 
 
 def r3_r4_r5_pop(ctx, F):
-    b = F.body('job_market::JobBroker::<Job>::pop')
+    import roles
+    b = roles.jm(F, 'pop')
     ctx.touched(b)
     wait = b.one_call('Condvar::wait', what='condvar wait in pop')
     pops = [c for c in b.calls_to('Vec::pop')
@@ -321,7 +322,7 @@ def shutdown_guard(F, cl):
                 flag_types[t['path']] = d
     if not flag_types:
         return None
-    work = [c for c in cl.calls if c.short.endswith('check_block') or c.short.endswith('check_trace_from_initial')]
+    work = [c for c in cl.calls if c.local and c.callee in F.bodies and F.bodies[c.callee].calls_to('Model::actions')]
     if not work:
         return None
     for (i, si, st) in cl.assigns(lambda st: st['rv']['k'] == 'agg' and st['rv'].get('adt') in flag_types):
@@ -397,7 +398,8 @@ def r9_empty_batch_is_shutdown_signal(ctx, F, rule='C05-R9'):
     if not readers:
         ctx.ok(rule, 'no-reader-uses-empty-as-signal', 'workers', 'no worker interprets an empty batch as shutdown')
         return
-    sp = F.body('job_market::JobBroker::<Job>::split_and_push')
+    import roles
+    sp = roles.jm(F, 'split_and_push')
     ctx.touched(sp)
     pushes = [c for c in sp.calls_to('Vec::push')
               if (lambda v: v.fields() and v.fields()[-1] == '.job_batches')(
